@@ -254,7 +254,16 @@ class G:
                              '<set attributeName="fill" to="red" begin="1s"/>'])
             self.feats.add("el.child-of-shape")
             return "<%s%s>%s</%s>" % (k, self.attrs_text(ida + a + pres), body, k)
-        return "<%s%s/>" % (k, self.attrs_text(ida + a + pres))
+        # three spellings of an element without content: empty-element tag, start tag directly followed by the end tag (what
+        # DOM serialisers write), start and end tag around white space
+        sp = r.random()
+        if sp < 0.7:
+            return "<%s%s/>" % (k, self.attrs_text(ida + a + pres))
+        if sp < 0.9:
+            self.feats.add("spelling.start-end")
+            return "<%s%s></%s>" % (k, self.attrs_text(ida + a + pres), k)
+        self.feats.add("spelling.start-ws-end")
+        return "<%s%s>%s</%s>" % (k, self.attrs_text(ida + a + pres), r.choice([" ", "\n", "\n    "]), k)
 
     def defs(self):
         r = self.r
